@@ -140,6 +140,7 @@ def check(ctx):
     ctx.rule("R9", "a redirection of a process-wide stream that is entered on worker threads is installed once and removed once, however the threads overlap: every context manager in ProcProxyThread.run that stores into sys.<stream> counts its users under a lock (install on 0 -> 1, restore on 1 -> 0); a manager that saves what it finds and restores what it saved, per thread, leaves the dispatcher installed for good when two alias threads overlap and end in the order they started", floor=2)
     ctx.rule("R8", "whoever replaced sys.stdout / sys.stderr puts the saved stream back unconditionally: on every path of the restore step (_TeeStd._replace_std, _RedirectStream.__exit__) the saved stream is stored into sys.<name>, unless the path is governed by 'nothing was installed' (`saved is None`) - a restore that first asks who is installed now is skipped whenever two redirections overlap and end out of order, and the session keeps the wrong stream", floor=2)
     ctx.rule("R10", "the loop that waits for a foreground pipeline stays alive until every stage is over: each 'is anyone still running' predicate of self in the condition of the polling loop (the while that asks the last stage's poll()) asks every member of the list the constructor collected the started stages in - its iteration domain is that list itself on every path (no slice, no filter, no state flag that narrows it) and a falsy answer is given only after the whole domain was walked", floor=2)
+    ctx.rule("R11", "every stage that swapped signal handlers in puts them back when the pipeline ends, not only the last one (the only stage that is ever wait()ed): on every way out of the ending step (CommandPipeline._end, exceptions included) a walk over every started stage, newest first (each stage saved what its predecessor installed), calls a method that in each handler-installing stage class reaches the restore of every installed signal; the call depends on nothing but the stage being present and over - otherwise SIGINT stays bound to a finished alias thread's handler after `alias | cmd`, and once that thread was interrupted it swallows every later Ctrl-C", floor=4)
     ctx.rule("R6", "process-wide state (cwd, sys.std*, terminal foreground group) is changed in xonsh/procs only inside a paired construct; every way out of CommandPipeline.end (explicit raises included) hands the terminal back", floor=3)
 
     # ------------------------------------------------------------------ R1
@@ -520,6 +521,7 @@ def check(ctx):
     _stream_restore_unconditional(ctx)
     _threaded_redirect_counted(ctx)
     _polling_predicate_total(ctx)
+    _every_stage_restores(ctx)
 
 
 
@@ -543,6 +545,126 @@ def _stream_restore_unconditional(ctx):
                 ctx.ob("R8", st, "a path through the restore step stores the saved stream into sys.<name>" + (" (or nothing was installed)" if not restored else ""), ok, key=f"{q}|restore-skipped|{';'.join(sorted(('' if pol else 'not ') + t for t, pol in lits))[:120]}", where=loc(fn), detail=None if ok else "path taken when: " + "; ".join(("" if pol else "not ") + t for t, pol in lits))
         if n_paths == 0:
             raise AnalysisError(f"{st}: no path enumerated")
+
+
+def _handler_cleanup_entries(ctx):
+    """{class: {method: True}} - methods of a handler-installing stage class from which the restore of every
+    installed signal is reachable, and which do not wait for the stage (no join()/wait() on the way)"""
+    out = {}
+    for rel, cname in ((PO, "PopenThread"), (PX, "ProcProxyThread")):
+        m = ctx.repo.module(rel)
+        ms = class_methods(m.cls(cname))
+        init = ms["__init__"]
+        installed = {unparse(n.value.args[0]) for n in walk_local(init) if isinstance(n, ast.Assign) and isinstance(n.value, ast.Call) and call_name(n.value) == "signal.signal" and len(n.value.args) == 2}
+        if len(installed) < 2:
+            raise AnalysisError(f"{rel}:{cname}.__init__: fewer than 2 signal handlers installed")
+        entries = set()
+        for name in ms:
+            reach = _reachable_methods(ms, [name])
+            restored = {unparse(c.args[0]) for r_ in reach for c in calls_in(ms[r_]) if call_name(c) == "signal.signal" and len(c.args) == 2}
+            blocks = any(isinstance(c.func, ast.Attribute) and c.func.attr in ("join", "wait") for r_ in reach for c in calls_in(ms[r_]))
+            if installed <= restored and not blocks and name != "__init__":
+                entries.add(name)
+        out[cname] = entries
+    return out
+
+
+def _every_stage_restores(ctx):
+    """R11: the ending step walks every stage and lets it restore the handlers it swapped in."""
+    from ..engine import dataflow as _df
+
+    pl = ctx.repo.module(PL)
+    entries = _handler_cleanup_entries(ctx)
+    common = set().union(*entries.values())
+    st = f"{PL}:CommandPipeline._end"
+    fn = flat(ctx, pl.func("CommandPipeline._end"), 2)
+    defs = _df.all_defs(fn)
+    cfg = CFG(fn)
+
+    def strip_order(e):
+        """-> (domain expr, newest_first)"""
+        if isinstance(e, ast.Call) and call_name(e) == "reversed" and len(e.args) == 1:
+            return e.args[0], True
+        if isinstance(e, ast.Subscript) and isinstance(e.slice, ast.Slice) and e.slice.lower is None and e.slice.upper is None and e.slice.step is not None and unparse(e.slice.step) == "-1":
+            return e.value, True
+        if isinstance(e, ast.Name):
+            d = _df.single_def(defs, e.id)
+            if d is not None and d.kind == "assign" and d.value is not None and d.index is None:
+                return strip_order(d.value)
+        return e, False
+
+    walks = []
+    for lp in [n for n in walk_local(fn) if isinstance(n, ast.For)]:
+        tn = {x.id for x in ast.walk(lp.target) if isinstance(x, ast.Name)}
+        # names bound to a method looked up on the element: clean_up = getattr(p, "_clean_up", None)
+        looked = {}
+        for n in walk_local(lp):
+            if isinstance(n, ast.Assign) and isinstance(n.value, ast.Call) and call_name(n.value) == "getattr" and len(n.value.args) >= 2 and isinstance(n.value.args[0], ast.Name) and n.value.args[0].id in tn and isinstance(const_value(n.value.args[1], None), str):
+                for t in n.targets:
+                    if isinstance(t, ast.Name):
+                        looked[t.id] = n.value.args[1].value
+        hits = []
+        for c in calls_in(lp):
+            nm = None
+            if isinstance(c.func, ast.Attribute) and isinstance(c.func.value, ast.Name) and c.func.value.id in tn:
+                nm = c.func.attr
+            elif isinstance(c.func, ast.Name) and c.func.id in looked:
+                nm = looked[c.func.id]
+            if nm in common:
+                hits.append((c, nm))
+        if hits:
+            walks.append((lp, hits, tn, looked))
+    sp = ctx.repo.module(SP)
+
+    def last_only(f, name, depth=3):
+        """``name`` in function f always stands for the last spec of the pipeline (specs[-1] at every origin)"""
+        params = [a.arg for a in f.args.posonlyargs + f.args.args]
+        if name not in params or depth == 0:
+            d = df.single_def(df.all_defs(f), name)
+            return d is not None and d.value is not None and isinstance(d.value, ast.Subscript) and unparse(d.value.slice) == "-1"
+        i = params.index(name)
+        sites = [(g, c) for _, g in sp.functions() for c in calls_in(g) if (call_name(c) or "").split(".")[-1] == f.name]
+        if not sites:
+            return False
+        for g, c in sites:
+            a = c.args[i] if i < len(c.args) else kwarg(c, name)
+            if isinstance(a, ast.Subscript) and unparse(a.slice) == "-1":
+                continue
+            if isinstance(a, ast.Name) and last_only(g, a.id, depth - 1):
+                continue
+            return False
+        return True
+
+    for cname, ents in sorted(entries.items()):
+        # a class only ever given to the last stage is wait()ed by the pipeline: the walk need not reach it
+        assigns = [(f, n) for _, f in sp.functions() for n in walk_local(f) if isinstance(n, ast.Assign) and any(isinstance(t, ast.Attribute) and t.attr == "cls" for t in n.targets) and any(isinstance(x, ast.Name) and x.id == cname for x in ast.walk(n.value))]
+        if not assigns:
+            raise AnalysisError(f"{SP}: no assignment of {cname} to a spec's cls found")
+        if all(isinstance(t.value, ast.Name) and last_only(f, t.value.id) for f, n in assigns for t in n.targets if isinstance(t, ast.Attribute)):
+            ctx.note(f"R11: {cname} is only ever the class of the last stage (specs[-1] at every origin of the assignment); the pipeline wait()s that stage itself")
+            continue
+        ok = any(nm in ents for _, hits, _, _ in walks for _, nm in hits)
+        ctx.ob("R11", st, f"the ending step calls a handler cleanup of {cname} in a walk over the stages", ok, key=f"_end|no-stage-cleanup-walk|{cname}", where=loc(fn), detail=None if ok else f"no loop in the ending step (helpers expanded) calls one of {sorted(ents)} (non-blocking methods of {cname} that reach the restore of every installed signal) on its element: a stage that is only joined keeps its handlers installed until it is garbage collected")
+    for lp, hits, tn, looked in walks:
+        dom, newest = strip_order(lp.iter)
+        whole = unparse(dom) == "self.procs"
+        ctx.ob("R11", st, "the cleanup walk covers every started stage (self.procs itself)", whole, key=f"_end|cleanup-walk-partial|{unparse(dom)[:40]}", where=loc(lp), detail=None if whole else f"walks `{short(lp.iter, 50)}`")
+        ctx.ob("R11", st, "the cleanup walk goes newest first (a stage saved the handler its predecessor had installed)", newest, key="_end|cleanup-walk-oldest-first", where=loc(lp), detail=None if newest else "oldest first: when the last stage was not waited for (interrupt), restoring it last re-installs its predecessor's handler")
+        nodes = cfg.nodes_of(lp)
+        on_all = bool(nodes) and cfg.must_pass(cfg.entry, lambda m_: m_.ast is lp, exits=("exit", "raise"))[0]
+        ctx.ob("R11", st, "every way out of the ending step (exceptions included) passes the cleanup walk", on_all, key="_end|cleanup-walk-skippable", where=loc(lp))
+        for c, nm in hits:
+            bad = None
+            for a in ancestors(c):
+                if a is lp:
+                    break
+                if isinstance(a, (ast.If, ast.IfExp, ast.While)):
+                    for e, _pol in implied_facts(a.test, True) + implied_facts(a.test, False):
+                        presence = (isinstance(e, ast.Compare) and len(e.ops) == 1 and isinstance(e.ops[0], (ast.Is, ast.IsNot)) and const_value(e.comparators[0], 0) is None) or (isinstance(e, ast.Call) and call_name(e) in ("hasattr", "callable", "getattr")) or (isinstance(e, ast.Name) and e.id in looked)
+                        over = any(isinstance(x, ast.Call) and isinstance(x.func, ast.Attribute) and x.func.attr == "poll" for x in ast.walk(e))
+                        if not (presence or over):
+                            bad = e
+            ctx.ob("R11", st, f"`{short(c, 40)}` depends only on the stage being present and over", bad is None, key=f"_end|cleanup-restricted|{unparse(bad)[:40] if bad is not None else ''}", where=loc(c), detail=None if bad is None else f"guarded by `{short(bad, 50)}`: stages failing it keep their handlers")
 
 
 def _polling_predicate_total(ctx):
